@@ -108,15 +108,26 @@ pub fn render(e: &R, out: &mut String) {
     match e {
         R::Empty => {}
         R::Lit(c) => {
-            if "\\.+*?()|[]{}^$#&-~".contains(*c) {
-                out.push('\\');
+            if NAMED.with(|n| n.get()) == 3 {
+                // escaped spelling: the character written as a hex escape
+                out.push_str(&format!("\\x{{{:x}}}", *c as u32));
+            } else {
+                if "\\.+*?()|[]{}^$#&-~".contains(*c) {
+                    out.push('\\');
+                }
+                out.push(*c)
             }
-            out.push(*c)
         }
         R::Any => out.push('.'),
         R::AnyNl => out.push_str("(?s:.)"),
         R::AnyNegS => out.push_str("(?-s:.)"),
-        R::LitCi(c) => out.push_str(&format!("(?i:{})", c)),
+        R::LitCi(c) => {
+            if NAMED.with(|n| n.get()) == 3 {
+                out.push_str(&format!("(?i:\\x{{{:x}}})", *c as u32))
+            } else {
+                out.push_str(&format!("(?i:{})", c))
+            }
+        }
         R::LitNegI(c) => out.push_str(&format!("(?-i:{})", c)),
         R::StartNegM => out.push_str("(?-m:^)"),
         R::StartA => out.push_str("\\A"),
@@ -130,7 +141,12 @@ pub fn render(e: &R, out: &mut String) {
             if *neg {
                 out.push('^');
             }
+            let hex = NAMED.with(|n| n.get()) == 3;
             for c in cs {
+                if hex {
+                    out.push_str(&format!("\\x{{{:x}}}", *c as u32));
+                    continue;
+                }
                 if "\\]^-[&~".contains(*c) {
                     out.push('\\');
                 }
@@ -915,6 +931,15 @@ fn fixed_patterns() -> Vec<R> {
     let star = |e: R| Rep(Box::new(e), 0, None, Mode::Greedy);
     let opt = |e: R| Rep(Box::new(e), 0, Some(1), Mode::Greedy);
     let mut v = vec![];
+    // class members that are special only inside a class (escaped `-` between two members that would form a range, escaped `&&`, `~~`),
+    // and a case-insensitive non-ASCII literal -- in the plain and in the hex-escaped spelling (added after seeded/C01-17, C01-18)
+    v.push(Class(vec!['a', '-', 'c'], false));
+    v.push(Cat(vec![Class(vec!['a', '-', 'c'], false), Look(bx(b()), LookKind::Ahead)]));
+    v.push(Class(vec!['a', 'b', '&', '&', 'b', 'c'], false));
+    v.push(Class(vec!['a', '~', '~', 'b'], true));
+    v.push(Cat(vec![LitCi('é'), Look(bx(b()), LookKind::AheadNeg)]));
+    v.push(LitCi('é'));
+    v.push(Cat(vec![Lit('é'), Class(vec!['-', 'é'], false)]));
     // repeats of hard bodies in tail position of atomic groups / look-arounds
     for (lo, hi) in [(2, Some(2)), (1, Some(2)), (1, None), (0, None), (2, None)] {
         for mode in [Mode::Greedy, Mode::Lazy] {
@@ -1076,7 +1101,8 @@ fn check_pattern(e: &R, texts: &[String], budget: &mut Budget) -> Option<(Value,
         return None;
     }
     // numbered spelling, and -- when the pattern refers to groups -- the spelling with named groups and named references
-    let spellings: Vec<u8> = if count_groups(e) > 0 && has_refs(e) { vec![0, 1, 2] } else { vec![0] };
+    // ... and the ESCAPED spelling (3): every literal character and class member written as a `\\x{..}` escape (same tree, same matches)
+    let spellings: Vec<u8> = if count_groups(e) > 0 && has_refs(e) { vec![0, 1, 2, 3] } else { vec![0, 3] };
     for named in spellings {
         let pat = render_top(e, named);
         let re = match catch_unwind(AssertUnwindSafe(|| Regex::new(&pat))) {
